@@ -116,7 +116,9 @@ Proof. vm_compute. left. reflexivity. Qed.
 (* ------------------------------------------------------------------ *)
 Definition exP : kparams :=
   {| p_max_tx_size := 32768; p_min_transact := 0; p_min_transfer := 10; p_gas_byte := 1;
-     p_gas_transfer := 1000; p_gas_burn := 1000; p_min_gas_price := 0; p_reserved := [] |}.
+     p_gas_transfer := 1000; p_gas_burn := 1000; p_min_gas_price := 0;
+     p_gas_escrow := 1300; p_gas_allow := 1100; p_gas_withdraw := 1200; p_min_deleg := 10; p_max_allow := 8;
+     p_reserved := [] |}.
 Definition exC := kcfg exP chain_separator tx_context [1] allow_small_order_A allow_small_order_R.
 
 Definition ex_tx (signer nonce : N) (valid : bool) : kraw :=
@@ -246,3 +248,26 @@ Example ex_small_order_rejected :
   obs (snd (deliver exC ex_s0 ex_forged)) = 3 /\
   obs (snd (deliver (kcfg exP chain_separator tx_context [1] true false) ex_s0 ex_forged)) = 0.
 Proof. vm_compute. split; reflexivity. Qed.
+
+(* ------------------------------------------------------------------ *)
+(* Removing an account record is a nonce write to 0 and re-admits old   *)
+(* transactions                                                        *)
+(* ------------------------------------------------------------------ *)
+(* state.go Account() returns the zero account for a missing record, so an
+   operation that deletes the record of a drained account resets its nonce.  No
+   operation of the model does (Proofs.run_nonce_count / nonce_never_decreases);
+   in the sources this is pinned by Gen.NonceWriters.account_record_writers.
+   Witness of what would happen otherwise: *)
+Definition remove_account {L} (s : state L) (a : N) : state L :=
+  {| nonces := adel a (nonces s); rest := rest s |}.
+
+Lemma account_removal_enables_replay :
+  exists (L Raw : Type) (C : cfg L Raw) (s : state L) (raw : Raw) (a : N),
+    (forall a', nonce_of s a' < U64) /\
+    authenticated (snd (deliver C s raw)) = true /\
+    authenticated (snd (deliver C (fst (deliver C s raw)) raw)) = false /\
+    authenticated (snd (deliver C (remove_account (fst (deliver C s raw)) a) raw)) = true.
+Proof.
+  exists (list (N * N)), kraw, exC, ex_s0, (ex_tx 1 0 true), 1.
+  split; [exact ex_wf|]. vm_compute. repeat split; reflexivity.
+Qed.
